@@ -17,7 +17,9 @@ uint32_t vp_param(uint32_t i);                 // concrete per-instance paramete
 int vp_native_mode(void);
 uint32_t vp_r_ok(const uint8_t* p, uint32_t n);       // range readable (CBMC __CPROVER_r_ok; 1 natively)
 uint32_t vp_w_ok(uint8_t* p, uint32_t n);
-uint32_t vp_choice(void);                             // nondeterministic choice of a stub (not part of the replayed input stream)
+uint32_t vp_choice(void);
+uint64_t vp_globals_size(void);                       // C18: size and byte snapshot of every mutable global of the translated unit
+void vp_globals_snapshot(uint8_t* dst);                             // nondeterministic choice of a stub (not part of the replayed input stream)
 }
 #define H(name) extern "C" void name(void)
 #endif
